@@ -382,3 +382,40 @@ Proof.
   induction fl as [|f fl IH]; cbn [flat_map]; [constructor|].
   apply Forall_app. split; [|exact IH]. apply split_lit_no_sep. discriminate.
 Qed.
+
+(* strings.TrimSuffix(f, "\r") *)
+Lemma trim_cr_snoc l : trim_cr (l ++ [13]) = l.
+Proof.
+  induction l as [|c l IH]; [reflexivity|].
+  change ((c :: l) ++ [13]) with (c :: (l ++ [13])).
+  destruct (l ++ [13]) as [|d r] eqn:E; [destruct l; discriminate|].
+  assert (trim_cr (c :: d :: r) = c :: trim_cr (d :: r)) as Hstep.
+  { cbn [trim_cr]. destruct c as [|p|p]; try reflexivity.
+    repeat (destruct p as [p|p|]; try reflexivity). }
+  rewrite Hstep, IH. reflexivity.
+Qed.
+
+Lemma trim_cr_incl l x : In x (trim_cr l) -> In x l.
+Proof.
+  induction l as [|c l IH]; [auto|].
+  destruct l as [|d r].
+  - intros H. assert (trim_cr [c] = [] \/ trim_cr [c] = [c]) as [E|E].
+    { cbn [trim_cr]. destruct c as [|p|p]; auto. repeat (destruct p as [p|p|]; auto). }
+    + rewrite E in H. destruct H.
+    + rewrite E in H. exact H.
+  - assert (trim_cr (c :: d :: r) = c :: trim_cr (d :: r)) as Hstep.
+    { cbn [trim_cr]. destruct c as [|p|p]; try reflexivity.
+      repeat (destruct p as [p|p|]; try reflexivity). }
+    rewrite Hstep. intros [H|H]; [left; exact H|right; apply IH; exact H].
+Qed.
+
+(* the RS="" rule: no field keeps a newline *)
+Theorem split_newlines_fields_have_no_newline fl : Forall (fun f => ~ In 10 f) (split_newlines fl).
+Proof.
+  unfold split_newlines. induction fl as [|f fl IH]; cbn [flat_map]; [constructor|].
+  apply Forall_app. split; [|exact IH].
+  apply Forall_map. pose proof (split_lit_no_sep [10] f ltac:(discriminate)) as H.
+  eapply Forall_impl; [|exact H]. intros g Hg Hin.
+  apply trim_cr_incl in Hin. apply in_split in Hin as (a & b & ->).
+  exact (Hg a b eq_refl).
+Qed.
